@@ -64,9 +64,13 @@ class Runner:
             # bounds are installed after construction (see below), so that a held value may be invalid
             # `shared`: the instance has no Parameter objects of its own (per_instance=False), it dispatches
             # through the class's ones
-            kw = {'per_instance': False} if case.get('shared') else {}
+            kw = {'per_instance': False} if case.get('shared') and case.get('level') != 'class' else {}
             ns[f'p{i}'] = param.Event(**kw) if i in self.events else param.Integer(default=v, **kw)
         self.cls = type('D', (param.Parameterized,), ns)
+        if case.get('inherit'):
+            # the object is a subclass that only inherits the parameters: a class-level assignment first installs
+            # a copy of the Parameter in the subclass, an instance is built from inherited Parameters
+            self.cls = type('E', (self.cls,), {})
         # the same programs run on an instance or on the class itself (class-level watchers and assignment)
         self.on_class = case.get('level') == 'class'
         self.obj = self.cls if self.on_class else self.cls()
@@ -359,6 +363,11 @@ def gen_case(rng, prop, max_params=4, max_watchers=5, faults=False, size=8):
     # an instance that shares its Parameter objects with the class (per_instance=False); Parameter attributes
     # then belong to the class's dispatcher, so attribute watchers are left out of these cases
     shared = level == 'instance' and rng.random() < 0.15
+    # the object is (an instance of) a subclass that only inherits its parameters; at class level the attributes of
+    # an inherited Parameter belong to the ancestor's dispatcher, so attribute watchers are left out there too
+    inherit = rng.random() < 0.4
+    if inherit and level == 'class':
+        shared = True          # (only switches the attribute watchers off: `shared` is ignored at class level)
     nb = rng.randint(0, 4)
     state = {'next_wid': 0, 'shared': set(), 'made': []}
 
@@ -526,7 +535,7 @@ def gen_case(rng, prop, max_params=4, max_watchers=5, faults=False, size=8):
             st = {'s': 'setSlot', 'p': p, 'k': what, 'v': rng.choice([0, 1, 2, 3])} if what else \
                  {'s': 'set', 'p': p, 'v': rng.choice([1, 1, 0, 7]) if p in events else value()}
             program.insert(rng.randrange(len(program) + 1), st)
-    return {'prop': prop, 'level': level, 'shared': shared, 'events': events, 'bounds': bounds, 'init': init, 'watchers': watchers,
+    return {'prop': prop, 'level': level, 'shared': shared, 'inherit': inherit, 'events': events, 'bounds': bounds, 'init': init, 'watchers': watchers,
             'bodies': bodies, 'program': program}
 
 
